@@ -419,6 +419,8 @@ type worlds struct {
 	reqBody   []byte
 	// Envoy passes the buffered request body in the string attribute unless pack_as_bytes is set
 	envoyBodyAsString bool
+	// Envoy passes the headers in header_map instead of headers when encode_raw_headers is set
+	envoyRawHeaders bool
 	// variants[0]: terse error responses, logging off (robust-sim: debug); variants[1]: verbose error responses and a
 	// trace level logger, so that code only executed for verbose answers or at trace level is part of what is decided
 	variants []worldVariant
@@ -556,6 +558,7 @@ type creds struct {
 	tokShape               int // rejected tokens: 0 opaque, 1 JWT of a foreign issuer, 2 JWT naming the trusted issuer
 	accept                 int // index into acceptValues
 	sibling                int // index into siblingCookies: another cookie sent along with the session cookie
+	ctSpelling             int // spelling of the form media type
 	bodySibling            int // index into siblingParams: another parameter in the form body next to the credential
 	scheme                 int // spelling of the Basic scheme (case-insensitive per RFC 9110): Basic, basic, BASIC
 }
@@ -607,7 +610,8 @@ func (c creds) body() string {
 func (c creds) headers() map[string]string {
 	h := c.allHeaders()
 	if c.body() != "" {
-		h["Content-Type"] = "application/x-www-form-urlencoded"
+		// media types are case-insensitive and may carry parameters (RFC 9110 8.3.1)
+		h["Content-Type"] = []string{"application/x-www-form-urlencoded", "Application/X-WWW-Form-Urlencoded", "application/x-www-form-urlencoded; charset=UTF-8"}[c.ctSpelling]
 	}
 	if c.jwtVia != 0 {
 		delete(h, "X-Jwt")
@@ -853,7 +857,7 @@ func (w *worlds) send(entry, path string, hdr map[string]string) (ans answer, pa
 		ctx, cancel := context.WithTimeout(context.Background(), 20*time.Second)
 		defer cancel()
 		resp, err := w.envoy.Check(ctx, &envoy_auth.CheckRequest{Attributes: &envoy_auth.AttributeContext{Request: &envoy_auth.AttributeContext_Request{
-			Http: &envoy_auth.AttributeContext_HttpRequest{Method: map[bool]string{true: "GET", false: w.reqMethod}[w.reqMethod == ""], Scheme: "http", Host: "svc.local", Path: path, Headers: lower(hdr), RawBody: map[bool][]byte{false: w.reqBody}[w.envoyBodyAsString], Body: map[bool]string{true: string(w.reqBody)}[w.envoyBodyAsString]},
+			Http: &envoy_auth.AttributeContext_HttpRequest{Method: map[bool]string{true: "GET", false: w.reqMethod}[w.reqMethod == ""], Scheme: "http", Host: "svc.local", Path: path, Headers: map[bool]map[string]string{false: lower(hdr)}[w.envoyRawHeaders], HeaderMap: rawHeaders(hdr, w.envoyRawHeaders), RawBody: map[bool][]byte{false: w.reqBody}[w.envoyBodyAsString], Body: map[bool]string{true: string(w.reqBody)}[w.envoyBodyAsString]},
 		}}})
 		if err != nil {
 			ans.status = "grpc-error: " + err.Error()
@@ -893,6 +897,23 @@ func (w *worlds) send(entry, path string, hdr map[string]string) (ans answer, pa
 }
 
 var _ = envoy_core.HeaderValue{}
+
+// rawHeaders renders the headers the way Envoy does with encode_raw_headers (nil when that mode is off).
+func rawHeaders(h map[string]string, on bool) *envoy_core.HeaderMap {
+	if !on {
+		return nil
+	}
+	var keys []string
+	for k := range h {
+		keys = append(keys, k)
+	}
+	sort.Strings(keys)
+	hm := &envoy_core.HeaderMap{}
+	for _, k := range keys {
+		hm.Headers = append(hm.Headers, &envoy_core.HeaderValue{Key: strings.ToLower(k), RawValue: []byte(h[k])})
+	}
+	return hm
+}
 
 func lower(h map[string]string) map[string]string {
 	out := map[string]string{}
@@ -967,6 +988,7 @@ func pipeSim(r *simcore.Run) {
 		c.accept = []int{0, 0, 0, 1, 2, 3, 4, 5}[s.Draw(8, "accept")]
 		if c.jwtVia == 3 || c.tokVia == 3 {
 			c.bodySibling = []int{0, 0, 1, 2, 3, 4}[s.Draw(6, "sibling-form-field")]
+			c.ctSpelling = []int{0, 0, 1, 2}[s.Draw(4, "media-type-spelling")]
 		}
 		if c.basic == 1 || c.basic == 2 {
 			c.scheme = []int{0, 0, 1, 2}[s.Draw(4, "scheme-spelling")]
@@ -1007,12 +1029,13 @@ func pipeSim(r *simcore.Run) {
 		}
 		before := len(w.net.Calls(""))
 		w.reqMethod, w.reqBody, w.envoyBodyAsString = "", nil, false
+		w.envoyRawHeaders = entry == "envoy" && s.Draw(3, "envoy-raw-headers") == 2
 		if b := c.body(); b != "" {
 			// the rule matches every method; Envoy hands the body over as string (its default) or as bytes (pack_as_bytes)
 			w.reqMethod, w.reqBody, w.envoyBodyAsString = "POST", []byte(b), s.Draw(2, "envoy-body-as-string") == 1
 		}
 		ans, panicked := w.send(entry, path, c.headers())
-		w.reqMethod, w.reqBody, w.envoyBodyAsString = "", nil, false
+		w.reqMethod, w.reqBody, w.envoyBodyAsString, w.envoyRawHeaders = "", nil, false, false
 		w.net.Plan = nil
 		called := map[string]int{}
 		var callOrder []string
